@@ -166,21 +166,23 @@ package vm
 // Property C12, the acceptance rule itself: the base cost is computed by the node from the block's type, data length or called
 // method - never taken from the block - and a user block passes only if its fused part is within what is available, its total
 // is proof-of-work plasma plus the fused part, within the per-block cap, and at least that base cost.
-//@ spec isReceive(t int) bool = t == nom.BlockTypeUserReceive || t == nom.BlockTypeContractReceive || t == nom.BlockTypeGenesisReceive
+//@ spec isReceiveType(t int) bool = t == nom.BlockTypeUserReceive || t == nom.BlockTypeContractReceive || t == nom.BlockTypeGenesisReceive
 //@ func GetBasePlasmaForAccountBlock(context, block) -> (base, err)
+//@   inline
 //@   requires block != nil
 //@   ensures[embedded-accounts-pay-nothing] block.Address[0] == 1 ==> base == 0 && err == nil
-//@   ensures[receive-pays-the-base] block.Address[0] != 1 && isReceive(block.BlockType) ==> base == constants.AccountBlockBasePlasma && err == nil
-//@   ensures[plain-send-pays-per-byte] block.Address[0] != 1 && !isReceive(block.BlockType) && block.ToAddress[0] != 1 && err == nil ==> base == len(block.Data) * constants.ABByteDataPlasma + constants.AccountBlockBasePlasma && len(block.Data) <= constants.MaxDataLength
-//@   ensures-local[contract-call-pays-the-method's-price] block.Address[0] != 1 && !isReceive(block.BlockType) && block.ToAddress[0] == 1 && err == nil ==> base == embedded.methodPrice(method)
+//@   ensures[receive-pays-the-base] block.Address[0] != 1 && isReceiveType(block.BlockType) ==> base == constants.AccountBlockBasePlasma && err == nil
+//@   ensures[plain-send-pays-per-byte] block.Address[0] != 1 && !isReceiveType(block.BlockType) && block.ToAddress[0] != 1 && err == nil ==> base == len(block.Data) * constants.ABByteDataPlasma + constants.AccountBlockBasePlasma && len(block.Data) <= constants.MaxDataLength
+//@   ensures-local[contract-call-pays-the-method's-price] block.Address[0] != 1 && !isReceiveType(block.BlockType) && block.ToAddress[0] == 1 && err == nil ==> base == embedded.methodPrice(method)
 //@   modifies nothing
 
 //@ func enoughPlasma(context, block) -> (err)
+//@   inline
 //@   requires block != nil
 //@   ensures[embedded-accounts-exempt] block.Address[0] == 1 ==> err == nil
 //@   ensures-local[fused-part-within-what-is-available] err == nil && block.Address[0] != 1 ==> block.FusedPlasma <= available
 //@   ensures-local[total-is-work-plus-fused-within-the-cap] err == nil && block.Address[0] != 1 ==> block.TotalPlasma == powPlasma + block.FusedPlasma && block.TotalPlasma <= constants.MaxPlasmaForAccountBlock
-//@   ensures[receive-pays-the-base] err == nil && block.Address[0] != 1 && isReceive(block.BlockType) ==> block.TotalPlasma >= constants.AccountBlockBasePlasma && block.BasePlasma == constants.AccountBlockBasePlasma
-//@   ensures[plain-send-pays-per-byte] err == nil && block.Address[0] != 1 && !isReceive(block.BlockType) && block.ToAddress[0] != 1 ==> block.TotalPlasma >= len(block.Data) * constants.ABByteDataPlasma + constants.AccountBlockBasePlasma && block.BasePlasma == len(block.Data) * constants.ABByteDataPlasma + constants.AccountBlockBasePlasma
+//@   ensures[receive-pays-the-base] err == nil && block.Address[0] != 1 && isReceiveType(block.BlockType) ==> block.TotalPlasma >= constants.AccountBlockBasePlasma && block.BasePlasma == constants.AccountBlockBasePlasma
+//@   ensures[plain-send-pays-per-byte] err == nil && block.Address[0] != 1 && !isReceiveType(block.BlockType) && block.ToAddress[0] != 1 ==> block.TotalPlasma >= len(block.Data) * constants.ABByteDataPlasma + constants.AccountBlockBasePlasma && block.BasePlasma == len(block.Data) * constants.ABByteDataPlasma + constants.AccountBlockBasePlasma
 //@   ensures[total-covers-the-recorded-base] err == nil && block.Address[0] != 1 ==> block.TotalPlasma >= block.BasePlasma
 //@   at-call GetBasePlasmaForAccountBlock assert[base-cost-computed-for-this-block] arg1 == block && arg0 == context
